@@ -15,7 +15,7 @@ EXPLANATION = (
     "MaxIterations/MaxTime; the result is status != Unsolved; (R3) every cycle folds elapsed time into the root "
     "timer (Timers::suspend) so solve_time advances; (R4) the timer stack is balanced on every path; (R5) the "
     "auxiliary loops are counter-bounded; (R6) dimension checks dominate construction and each relation diverges "
-    "when violated; (R7) the unreachable!() cone methods are dead: guarded by is_symmetric, or unreachable from the API roots; (R7b) settings validator and dispatcher accept the same option strings; (R9) P is reduced to its upper triangle and the cone list collapsed before use. NOT decided: absence "
+    "when violated; (R7) the unreachable!() cone methods are dead: guarded by is_symmetric, or unreachable from the API roots; (R7b) settings validator and dispatcher accept the same option strings; (R9) P is reduced to its upper triangle and the cone list collapsed before use; (R10) the progress printer reaches _exp_str_reformat (which unwraps find('e')) only on the true edge of is_finite(value). NOT decided: absence "
     "of all panics (bounds checks, arithmetic, BLAS failures), termination of data-dependent inner loops.")
 ASSUMPTIONS = [
     'rustc MIR construction and trait resolution are correct',
@@ -635,6 +635,46 @@ def settings_strings(rep, F, tag):
     R.guard(body)
 
 
+def exp_format_guard(rep, F, tag):
+    """_exp_str_reformat unwraps find('e') on the formatted number: it may only see finite values (inf / NaN print without
+    an exponent).  Every call must sit on the true edge of an is_finite test of the very value it formats."""
+    R = rep.rule('C04.R10', 'status printing cannot panic on non-finite figures: _exp_str_reformat is reached only under is_finite(value) == true')
+
+    def body():
+        n = 0
+        for f in F.fns:
+            cs = [c for c in f.calls if c.callee.name == '_exp_str_reformat']
+            if not cs:
+                continue
+            dom = f.dominators()
+            for c in cs:
+                n += 1
+                ok = False
+                why = 'no dominating is_finite test'
+                for b in dom[c.bb]:
+                    t = f.blocks[b]['t']
+                    if t['k'] != 'switch':
+                        continue
+                    k = canon(f.sym_operand(t['d']))
+                    neg = k.startswith('not(')
+                    if 'is_finite(' not in k:
+                        continue
+                    zero_t = [tb for v_, tb in t['ts'] if int(v_) == 0]
+                    true_succ = t['o'] if zero_t else None
+                    false_succ = zero_t[0] if zero_t else None
+                    if neg:
+                        true_succ, false_succ = false_succ, true_succ
+                    if true_succ is not None and true_succ != false_succ and true_succ in dom[c.bb]:
+                        ok = True
+                    else:
+                        why = 'the call is not on the true edge of %s' % k
+                R.check(ok, 'finite-guard|%s|%d%s' % (short(f.key), cs.index(c), tag),
+                        '%s formats a figure with _exp_str_reformat (which unwraps find(\'e\')) although %s: an infinite residual / cost makes print_status panic' % (f.key, why), f.loc(c.sp))
+        R.check(n >= 5, 'sites' + tag, 'only %d _exp_str_reformat call sites found (anchor drift)' % n)
+
+    R.guard(body)
+
+
 def run(ctx, rep, tier):
     for cfg in CONFIGS:
         F = ctx.facts(cfg)
@@ -649,6 +689,7 @@ def run(ctx, rep, tier):
         construction_checks(rep, F, tag)
         dead_panics(rep, F, G, tag)
         settings_strings(rep, F, tag)
+        exp_format_guard(rep, F, tag)
         # degenerate cones (empty, singleton) are collapsed before anything else sees the cone list
         from . import c05
         c05.input_normalisation(_Ren(rep, 'C05.R5', 'C04.R9'), F, tag)
